@@ -250,9 +250,7 @@ func modelPacket(proto string, clientSide bool, data []byte) (payloadOff int, ok
 	if len(data) < hdr+1 {
 		return 0, false
 	}
-	if proto == "socks5" && data[2] != 0 {
-		return 0, false // FRAG
-	}
+	// FRAG (data[2]) is not part of the model: whether fragments are dropped or reassembled is the implementation's choice
 	a := data[hdr:]
 	var n int
 	switch a[0] {
